@@ -295,7 +295,9 @@ def run_e2e(n, gi):
     return evals, nt, viol
 
 
-TWINS = ['a.b', 'a_b', 'ab', 'x[y]', 'p+q', 'a|b', 'a.', 'a$']
+TWINS = ['a.b', 'a_b', 'ab', 'x[y]', 'p+q', 'a|b', 'a.', 'a$',
+         # names that differ in letter case only
+         'aB', 'Ab', 'AB']
 
 
 def run_twins(pair, mode):
@@ -314,6 +316,8 @@ def run_twins(pair, mode):
     elif mode == 'j2':
         argv = ['-j2']
     res = runrt.run_world({'layers': layers, 'tests': tests}, argv, probe=False)
+    # the same world discovered in the opposite order
+    res_rev = runrt.run_world({'layers': layers, 'tests': tests[::-1]}, argv, probe=False)
     objs = {nm: worlds_inst(nm) for nm in names}
     ref = ['vtw.tests.' + o.__name__ for o in R.order_by_bases([objs[nm] for nm in names])]
     want = (['vtw.tests.A'] if mode == 'resumed' else []) + ref
@@ -322,6 +326,9 @@ def run_twins(pair, mode):
     where = (names, mode)
     if hdr != want and not (mode == 'j2' and hdr[1:] == want):
         viol.append(('header_sequence', where, (hdr, want)))
+    hdr_rev = [h for h in runrt.HDR_RE.findall(res_rev.text)]
+    if hdr_rev != hdr:
+        viol.append(('order_depends_on_discovery_order', where, (hdr, hdr_rev)))
     groups = []
     for ev in res.trace:
         if ev[1] == 't' and ev[3] == 'body':
